@@ -21,7 +21,7 @@ const c07Bystander = "b@x.io"
 
 // probeKinds are requests that carry no credential of their own: what happens
 // to the session in them is entirely the remember middleware's doing.
-var probeKinds = map[string]bool{"open": true, "prot": true, "full": true}
+var probeKinds = map[string]bool{"open": true, "prot": true, "full": true, "notmod": true}
 
 // c07Model records what each browser's most recent OAuth2 start request asked for.
 func c07Model(st *engine.Step) {
@@ -273,6 +273,9 @@ func c07Scenarios(tier string) []engine.Scenario {
 				a = append(a, flows.Restart(b))
 				a = append(a, simple("open("+b+")", func(s *world.Stack) world.Req { return flows.Open(b) }))
 				a = append(a, simple("full("+b+")", func(s *world.Stack) world.Req { return flows.Full(b) }))
+				if b == "B2" {
+					a = append(a, simple("notmodified("+b+")", func(s *world.Stack) world.Req { return flows.NotModified(b) }))
+				}
 				a = append(a, simple("logout("+b+")", func(s *world.Stack) world.Req { return flows.Logout(s, b) }))
 			}
 			a = append(a, flows.Steal("B1", "B2"), flows.Steal("B2", "B1"))
